@@ -104,7 +104,8 @@ type World struct {
 	Logs    []string
 	Stopped []string // messages of process-stopped events
 
-	Probes map[string]int
+	Probes   map[string]int
+	counters map[string]uint64
 
 	sched *scheduler
 }
@@ -193,6 +194,17 @@ func (w *World) ResetTrace() {
 	w.mu.Lock()
 	defer w.mu.Unlock()
 	w.trace = nil
+}
+
+// NextCounter returns 1, 2, 3, ... per name.
+func (w *World) NextCounter(name string) uint64 {
+	w.mu.Lock()
+	defer w.mu.Unlock()
+	if w.counters == nil {
+		w.counters = map[string]uint64{}
+	}
+	w.counters[name]++
+	return w.counters[name]
 }
 
 // Probe counts that a named situation was reached.
